@@ -40,3 +40,5 @@ pub mod c13;
 pub mod c08;
 #[cfg(feature = "c15")]
 pub mod c15;
+#[cfg(feature = "c14")]
+pub mod c14;
